@@ -152,7 +152,7 @@ def read(self, size=-1):
                         "RequestEntityTooLarge": ["self._pos == old(self._pos)", "self._stream.pos == old(self._stream.pos)"]},
     )
     reg.contract(
-        "werkzeug/wsgi.py:LimitedStream.readall", prop=P, self_model=LS,
+        "werkzeug/wsgi.py:LimitedStream.readall", modifies=["self._pos", "self._stream.pos", "self._stream.nzero"], raise_modifies=["self._pos", "self._stream.pos", "self._stream.nzero", "self._stream.nerr"], prop=P, self_model=LS,
         returns="bytes",
         requires=["I_ls1(self)"],
         ensures=[
@@ -191,12 +191,12 @@ def read(self, size=-1):
              "None if (te == 'chunked' or cl is None) else "
              "((str_to_int(cl.strip()) if str_to_int(cl.strip()) > 0 else 0) if plain_int(cl.strip()) else 0)")
     reg.contract(
-        "werkzeug/_internal.py:_plain_int", prop="C09,C07", replay="pure", params={"value": "str"}, returns="int",
+        "werkzeug/_internal.py:_plain_int", modifies=[], prop="C09,C07", replay="pure", params={"value": "str"}, returns="int",
         ensures=["plain_int(value.strip())", "implies(len(value.strip()) <= int_max_digits(), result == str_to_int(value.strip()))"],
         raises={"ValueError": "not plain_int(value.strip()) or len(value.strip()) > int_max_digits()"},
     )
     reg.contract(
-        "werkzeug/sansio/utils.py:get_content_length", prop="C09,C07", replay="pure",
+        "werkzeug/sansio/utils.py:get_content_length", modifies=[], prop="C09,C07", replay="pure",
         params={"http_content_length": "Optional[str]", "http_transfer_encoding": "Optional[str]"},
         returns="Optional[int]",
         ensures=["(result is None) == (http_transfer_encoding == 'chunked' or http_content_length is None)",
@@ -208,7 +208,7 @@ def read(self, size=-1):
     ENV_T = dict(ENV)
     ENV_T["wsgi.input_terminated"] = "bool"
     reg.contract(
-        "werkzeug/wsgi.py:get_content_length", prop="C09,C07", params={"environ": ENV}, returns="Optional[int]",
+        "werkzeug/wsgi.py:get_content_length", modifies=[], prop="C09,C07", params={"environ": ENV}, returns="Optional[int]",
         ensures=["(result is None) == (environ['HTTP_TRANSFER_ENCODING'] == 'chunked' or environ['CONTENT_LENGTH'] is None)",
                  "result is None or result >= 0",
                  "implies(environ['CONTENT_LENGTH'] is not None and len(environ['CONTENT_LENGTH'].strip()) <= int_max_digits(), "
